@@ -310,7 +310,7 @@ func main() {
 			h = 1 * time.Second
 		}
 		scs = append(scs, scenario(cfg{stack: mk(k), receivers: 1, horizon: h}, pb))
-		if k == "frag" || k == "mbapp" || k == "p2pke" || k == "mux-string" || run.Thorough() {
+		if k == "frag" || k == "mbapp" || k == "p2pke" || k == "mux-string" || k == "multi" || run.Thorough() {
 			scs = append(scs, scenario(cfg{stack: mk(k), receivers: 0, backlog: true, horizon: h}, pb))
 		}
 		if run.Thorough() {
